@@ -250,6 +250,43 @@ def oracle(tname, current):
     return {a: m.evaluate(a) for a in all_cells(tname)}
 
 
+_ORACLES_P = {}
+
+
+def oracle_with(tname, current, plugins=(), pre=None):
+    """full recompute as oracle(), for templates whose formulas use plugin functions"""
+    key = (tname, tuple(plugins))
+    with notrace():
+        if key not in _ORACLES_P:
+            if pre:
+                pre()
+            m = ExcelCompiler(excel=make_workbook(tname), plugins=tuple(plugins))
+            for a in all_cells(tname):
+                try:
+                    m.evaluate(a)
+                except Exception:  # noqa  (unknown-function templates)
+                    pass
+            _ORACLES_P[key] = m
+        m = _ORACLES_P[key]
+        t = TEMPLATES[tname]
+        for a, cell in m.cell_map.items():
+            if ":" in a or cell.formula:
+                cell.value = None
+        for c in inputs_of(tname):
+            m.cell_map[addr(c)].value = t[c]
+    if pre:
+        pre()
+    for a, v in current.items():
+        m.cell_map[a].value = v
+    out = {}
+    for a in all_cells(tname):
+        try:
+            out[a] = m.evaluate(a)
+        except Exception:  # noqa
+            out[a] = None
+    return out
+
+
 @_untraced
 def scratch_oracle(tname, current):
     """concrete from-scratch compile with substituted constants (used by replays / self-tests only)"""
